@@ -26,14 +26,17 @@ DESIGN_COMMON = ("Design matrix inside the model: Model/Design holds the row/col
                  "and entry formulas for every size; ")
 DESIGN_S = (DESIGN_COMMON + "design_model_ref_row, design_ta_matches_model (the code stores a splice coefficient at (row of observation (r,j), loss of "
             "splice a at time j) iff the model's row has it, for all nt, nx, nta and splice positions), design_c_matches_model, "
-            "design_dalpha_matches_model, Design.sTa_injective (no entry twice), sMt_entry (matching rows); every block is also compared "
+            "design_dalpha_matches_model, Design.sTa_injective (no entry twice), matching rows: design_model_match_row, design_mt_entry, "
+            "match_row_ta_mem; design_code_weight_order (the recorded weight-order defect stated for every size); every block is also compared "
             "entry for entry with the real solver output (driver op design). ")
 DESIGN_D = (DESIGN_COMMON + "design_model_fw_row / _bw_row, design_ta_fw_matches_model, design_ta_bw_matches_model, design_d_matches_model, "
             "design_E_matches_model, design_E_first_row (for all sizes); every block of construct_submatrices is also compared entry for "
             "entry with the real output (driver op design). Scatter: from_i of the solver and of the three fixed-parameter branches of the "
             "helper (Model/Scatter, gen = model by rfl each run); scatter_solver_head/_alpha/_ta, scatter_positions_are_layout, "
             "scatter_solver_mem_activeCols (a position is written iff the model counts the parameter among the unknowns), "
-            "scatter_fix_gamma_skips_gamma, scatter_fix_alpha_skips_alpha, scatter_fix_both_mem_activeCols. ")
+            "scatter_fix_gamma_skips_gamma, scatter_fix_alpha_skips_alpha, scatter_fix_both_mem_activeCols, lifted to equality of lists "
+            "(scatter_solver_eq_activeCols: the k-th unknown of the code is the k-th unknown of the model); assembly of po_sol / po_var "
+            "(Scatter.poSol / poSolMatch, re-read each run): poSol_head/_first/_ref/_outside/_ta, poSol_follows_fromI. ")
 
 CLAIMED = {
     "C01": ("Lean 4: normal equations => global minimiser (Mathlib, any ordered field) + result-checked exact rational WLS in the model + bridge theorem; differential correspondence of the captured (X,y,w), optimum, covariance, layout, tmpf",
@@ -90,7 +93,7 @@ CLAIMED = {
     "C07": ("Lean 4: fixed-parameter reduction identity, reported-as-supplied theorem, positivity of the inflated variance; correspondence of the reduced system for every fix_* combination",
             "Proof: C07_fixed_reported, C07_reduction (wssr_fixed_reduction), C07_fixed_not_active, C07_weights_positive_spec, "
             "C07_reduceObs_single, scatter_single_mem_activeCols (ip_use of calibration_single_ended_helper, re-read from the source each run, is "
-            "the model's set of unknowns for all eight flag combinations and all sizes). Every run: C01/C02 generator x {fix_gamma, fix_dalpha, fix_alpha, fix_alpha+fix_gamma} x variance "
+            "the model's list of unknowns, in the same order (scatter_single_eq_activeCols), for all eight flag combinations and all sizes). Every run: C01/C02 generator x {fix_gamma, fix_dalpha, fix_alpha, fix_alpha+fix_gamma} x variance "
             "classes {0, 1e-20, comparable, 100x}: reduced rows/weights vs model, optimum vs exact WLS, value/variance/zero covariance "
             "of the fixed parameter and finiteness checked on the result.",
             NOTE + TRANSL + WLSNOTE + "fix_alpha variance at the first reference location taken as 0.", "§8 C07"),
